@@ -123,7 +123,10 @@ func genCitadel(seed uint64, n int, path string) {
 	kinds := []string{"normal", "normal", "normal", "three", "leafonly", "leafonly", "empty", "error"}
 	for i := 0; i < n; i++ {
 		r := root.Fork()
-		out.Line("case", strconv.Itoa(i), "citadel")
+		// ratio / jitter as in the cache stream (the delay bucket is printed where it is deterministic)
+		rn, rd := ratTokens(wire.Pick(r, cacheRatios))
+		jn, jd := ratTokens(wire.Pick(r, cacheJitters))
+		out.Line("case", strconv.Itoa(i), "citadel", rn, rd, jn, jd)
 		entries := 0
 		cached := false
 		nops := 2 + r.Intn(10)
